@@ -454,6 +454,11 @@ func (x *Exec) runBody(fn *ssa.Function, c *Contract, params, free []Value, st *
 	if fn.Blocks == nil {
 		fail("function %s has no body", FuncKey(fn))
 	}
+	if c == nil && inlineDepth > 0 && x.C != nil {
+		// an inlined callee without a contract of its own (deferred closures): the
+		// verified function's call-site assertions and channel rules apply inside it
+		c = &Contract{Key: FuncKey(fn), CallAsserts: x.C.CallAsserts, Loops: map[int]*LoopSpec{}, Props: map[string]bool{}, RecvInv: nil}
+	}
 	f := &frame{x: x, fn: fn, c: c, nodes: map[string]*node{}, regs: map[string]Value{}, params: params, free: free,
 		headOf: map[*ssa.BasicBlock]*loopInfo{}, inlineDepth: inlineDepth, callSeq: map[string]int{}}
 	f.loops = findLoops(fn)
